@@ -254,6 +254,14 @@ def rule_global_state(ctx: Ctx, prog: Program, extra_dir_positive_control: Optio
                 if kind:
                     mutable_globals[(m.name, tname)] = kind
                     n_globals += 1
+        key_uses = set()
+        for n_ in ast.walk(m.tree):
+            if isinstance(n_, ast.Subscript) and isinstance(n_.slice, ast.Call):
+                key_uses.add(id(n_.slice))
+            if isinstance(n_, ast.Compare) and any(isinstance(o_, (ast.In, ast.NotIn)) for o_ in n_.ops) and isinstance(n_.left, ast.Call):
+                key_uses.add(id(n_.left))
+            if isinstance(n_, ast.Call) and isinstance(n_.func, ast.Attribute) and n_.func.attr in ('get', 'add', 'discard', 'pop', 'setdefault') and n_.args and isinstance(n_.args[0], ast.Call):
+                key_uses.add(id(n_.args[0]))
         for n in ast.walk(m.tree):
             if isinstance(n, ast.Global) and not is_main:
                 ctx.violation("R-GLOBAL-STATE", m.relpath, "<module>", f"global:{','.join(n.names)}", f"{m.relpath}:{n.lineno}",
@@ -266,6 +274,8 @@ def rule_global_state(ctx: Ctx, prog: Program, extra_dir_positive_control: Optio
                                       f"module '{nm}' (a source of run-to-run variation) is imported by library code")
             if isinstance(n, ast.Call) and not is_main:
                 fsrc = ast.unparse(n.func)
+                if fsrc in ("id", "hash") and id(n) in key_uses:
+                    continue  # an identity used as a dictionary key / membership probe (a deepcopy memo, a visited set): its value never shows
                 if fsrc in ("os.urandom", "id", "hash", "os.getpid", "time.time") or fsrc.startswith("random.") or fsrc.startswith("np.random") or fsrc.startswith("numpy.random"):
                     ctx.violation("R-GLOBAL-STATE", m.relpath, "<module>", f"call:{fsrc}", f"{m.relpath}:{n.lineno}", f"{fsrc}(...) makes results depend on the run")
                 if fsrc in ("os.getenv", "os.environ.get"):
